@@ -6,6 +6,7 @@ from the repo's source) against the two declarative semantics of Model/C08Sem.le
 import MxlVerif.Lemmas.C08Roundtrip
 import MxlVerif.Lemmas.C08Compartment
 import MxlVerif.Lemmas.C08RoundtripFrom
+import MxlVerif.Lemmas.C08Full
 import MxlVerif.Lemmas.C08Total
 import MxlVerif.Model.C17Doc
 namespace Mxl.C08
@@ -478,14 +479,17 @@ example : usesRefused (.binop .mod (.name "x") (.name "k")) = true ∧
 
 /-! ### the `compartments` option and the species attributes (findings F-C08-14 / -15 / -16, repaired) -/
 
-/-- `write(model, file, compartments=…)` writes, whatever the option, the components `exportModel` writes when the
-    species references avoid a set of names that contains the model's (the compartment ids are in it since F-C08-19);
-    without the option-dependent names that set is `m.names` and the document is `exportModel m`'s. -/
+/-- `write(model, file, compartments=…)` writes, whatever the option, the components `exportModel` writes for the model
+    with its function arguments replaced by the declared ids (`escArgs`; the identity on a well-named model), when the
+    species references avoid a set of names that contains the model's (the compartment ids are in it since F-C08-19). -/
 theorem C08_write_doc_is_export (m : PyModel) (o : Option (List (String × Rat))) (dc : SDocC)
     (h : writeModel m o = .ok dc) :
-    ∃ t, (∀ n ∈ m.names, n ∈ t) ∧ exportModelFrom t m = .ok dc.doc ∧ exportModel m = exportModelFrom m.names m := by
+    ∃ t, (∀ n ∈ m.names, n ∈ t) ∧ exportModelFrom t m.escArgs = .ok dc.doc ∧
+      (wellNamed m = true → m.escArgs = m) ∧ exportModel m = exportModelFrom m.names m := by
   obtain ⟨cs, _, he⟩ := writeModel_ok h
-  exact ⟨refTaken m cs, names_sub_refTaken m cs, (exportModelC_doc he).1, rfl⟩
+  refine ⟨refTaken m.escArgs cs, ?_, (exportModelC_doc he).1, escArgs_of_wellNamed, rfl⟩
+  intro n hn
+  exact names_sub_refTaken m.escArgs cs n (by rw [(escArgs_names m).1]; exact hn)
 
 /-- **Every successful `write` round-trips**, whatever the `compartments` option: for a well-named model the document
     written holds every component under its name, and its SBML reading gives the model's initial values, derived values,
@@ -496,7 +500,8 @@ theorem C08_write_roundtrip (I : Interp) (m : PyModel) (o : Option (List (String
     (∀ n v, pyInit I m m.fuel n = some v → docInit I dc.doc dc.doc.fuel n = some v) ∧
     (∀ st n v, pyValue I m st m.fuel n = some v → docValue I dc.doc st dc.doc.fuel n = some v) ∧
     (∀ st x v, (∀ n q, st.lookup n = some q → n ∈ m.names) → pyRhs I m st x = some v → docRhs I dc.doc st x = some v) := by
-  obtain ⟨t, hsub, hx, _⟩ := C08_write_doc_is_export m o dc h
+  obtain ⟨t, hsub, hx, hid, _⟩ := C08_write_doc_is_export m o dc h
+  rw [hid hw] at hx
   have hE := exported_of_exportFrom hsub hw hx
   refine ⟨exported_species_keyFrom hw hx, ?_, ?_, ?_⟩
   · intro n v hv
@@ -509,6 +514,48 @@ theorem C08_write_roundtrip (I : Interp) (m : PyModel) (o : Option (List (String
     rw [pyRhs_eq] at hv
     rw [docRhs_eq]
     exact rhs_list I hE (fnsFree_of_wellNamed hw) st hst x hE.rxns (fun _ h => h) v hv
+
+/-- **What `write` does with the options that carry no number.**  For a well-named model and any options: the model id,
+    the unit definitions and the modifiers are ADDED to the document of `writeModel` — components, compartments and species
+    attributes are those of `writeModel` (so `C08_write_roundtrip` holds for the full `write`); every reaction lists as
+    modifiers exactly the arguments of its rate function that are variables and not in its stoichiometry, each of them a
+    species the document declares, none of them a reactant or product. -/
+theorem C08_write_full (m : PyModel) (cs : Option (List (String × Rat))) (o : WriteOpts) (dc : SDocC)
+    (hw : wellNamed m = true) (h : writeModelFull m cs o = .ok dc) :
+    (∃ dc0, writeModel m cs = .ok dc0 ∧ dc.doc = dc0.doc ∧ dc.compartments = dc0.compartments ∧ dc.species = dc0.species) ∧
+    dc.modifiers = m.rxns.map (fun rx => (rx.name, modifiersOf m rx)) ∧
+    (∀ rm ∈ dc.modifiers, ∀ s ∈ rm.2, s ∈ dc.doc.species.map (·.1)) ∧
+    (∀ rx ∈ m.rxns, ∀ k ∈ modifiersOf m rx, k ∉ rx.stoich.map (·.1)) := by
+  obtain ⟨dc0, mods, mid, h0, hm, _, rfl⟩ := writeModelFull_parts h
+  have hw' := hw
+  simp only [wellNamed, Bool.and_eq_true, List.all_eq_true] at hw'
+  obtain ⟨⟨⟨⟨⟨⟨hplain, _⟩, _⟩, _⟩, _⟩, _⟩, _⟩ := hw'
+  have hmods : mods = m.rxns.map (fun rx => (rx.name, modifiersOf m rx)) := by
+    have : exportModifiers m = .ok (m.rxns.map (fun rx => (rx.name, modifiersOf m rx))) := by
+      unfold exportModifiers
+      apply mapE_ok_of_forall
+      intro rx hrx
+      have hn : isPlainName rx.name = true := hplain rx.name (rxn_name_mem hrx)
+      have hin : mapE (fun k => escapeId k prefixRefSpecies) (modifiersOf m rx) = .ok ((modifiersOf m rx).map fun k => k) := by
+        apply mapE_ok_of_forall
+        intro k hk
+        have hv := (modifiersOf_spec m rx k hk).2.1
+        have : k ∈ m.names := by unfold PyModel.names; simp only [List.mem_append]; exact .inl (.inl (.inr hv))
+        exact escapeId_plain _ (hplain k this)
+      simp [escapeId_plain _ hn, hin, bind, Except.bind, pure, Except.pure]
+    rw [this] at hm
+    exact (Except.ok.inj hm).symm
+  refine ⟨⟨dc0, h0, rfl, rfl, rfl⟩, hmods, ?_, ?_⟩
+  · intro rm hrm s hs
+    simp only [hmods, List.mem_map] at hrm
+    obtain ⟨rx, _, rfl⟩ := hrm
+    have hv := (modifiersOf_spec m rx s hs).2.1
+    exact (C08_write_roundtrip (fun _ _ => none) m cs dc0 hw h0).1 s hv
+  · intro rx _ k hk
+    exact (modifiersOf_spec m rx k hk).2.2
+
+/-- the model id can always be written (the name is never empty: it ends in `_<date>`) -/
+theorem C08_model_id_total (o : WriteOpts) : ∃ id, modelId o = .ok id := modelId_total o
 
 /-- no dangling compartment (F-C08-15): every species is written, with the compartment of each being one of
     the compartments the file declares; a model with variables has exactly one species entry per species. -/
@@ -529,8 +576,8 @@ theorem C08_species_compartment_declared (m : PyModel) (o : Option (List (String
       rw [hcs]
       exact speciesCompartment_mem hcomp
   · intro hv
-    cases hvars : m.vars with
-    | nil => exact absurd hvars hv
+    cases hvars : m.escArgs.vars with
+    | nil => exact absurd ((escArgs_vars_nil m).mp hvars) hv
     | cons v vs =>
       rw [hvars] at hcomp
       obtain ⟨c, rfl⟩ := speciesCompartment_some hcomp
@@ -593,16 +640,16 @@ theorem C08_no_compartment_refused (m : PyModel) (hv : m.vars ≠ []) :
   have hl : speciesCompartmentLit = none := rfl
   simp only [writeModel, chooseCompartments, hr, List.any_nil, Bool.and_false, Bool.false_eq_true, if_false,
     bind, Except.bind, exportModelC]
-  cases h1 : foldE exportParam SDoc.empty m.params with
+  cases h1 : foldE exportParam SDoc.empty m.escArgs.params with
   | error e => exact ⟨e, rfl⟩
   | ok d1 =>
     simp only []
-    cases h2 : foldE (fun d kv => exportRule d kv.1 kv.2) d1 m.derived with
+    cases h2 : foldE (fun d kv => exportRule d kv.1 kv.2) d1 m.escArgs.derived with
     | error e => exact ⟨e, rfl⟩
     | ok d2 =>
       simp only []
-      cases hvars : m.vars with
-      | nil => exact absurd hvars hv
+      cases hvars : m.escArgs.vars with
+      | nil => exact absurd ((escArgs_vars_nil m).mp hvars) hv
       | cons v vs => exact ⟨.valueError "SBML species need a compartment, but `compartments` is empty", by simp [speciesCompartment, hl]⟩
 
 /-- `_free_reference` terminates: within `len(taken) + 1` rounds it finds a name that is not taken, so the name of
@@ -615,7 +662,7 @@ theorem C08_free_reference_total (taken : List String) (x : String) :
 /-- non-vacuity: the former counterexample of F-C08-16 — a parameter called `compartment` — is written with the
     default compartment `compartment_`, the species in it, as amounts -/
 example : ∃ dc, writeModel ⟨[("compartment", .val 3)], [("x", .val 2)], [], []⟩ none = .ok dc ∧
-    dc.compartments = [("compartment_", 1)] ∧ dc.species = [⟨"x", "compartment_", true, true⟩] := by
+    dc.compartments = [("compartment_", (defaultCompartmentSize : Rat))] ∧ dc.species = [⟨"x", "compartment_", true, true⟩] := by
   refine ⟨_, rfl, ?_, ?_⟩ <;> decide +kernel
 example : ∃ dc, writeModel clashModel (some [("cell", 4), ("c2", 1)]) = .ok dc ∧
     dc.species.map (·.compartment) = ["cell", "cell"] := by
@@ -633,9 +680,10 @@ theorem C08_tables :
     nonnegSide = .product ∧ unknownCallRaises = true ∧ arityChecked = true ∧ logWithBase = true ∧
     iaSetterExists = true ∧ libParents = pyLibs ∧ binaryNumpyOnly = true ∧ bodyFirstReturn = true ∧
     refFresh = true ∧ refSuffix = "ref" ∧ refAvoidsCompartments = true ∧
+    iaSymbolDeclared = true ∧ mathUsesIds = true ∧ prefixRefId = prefixRule ∧ prefixRefSpecies = prefixVar ∧
     exportOrder = [.params, .derivedParams, .vars, .derivedVars, .rxns] ∧
     speciesHosu = true ∧ speciesInitAmount = true ∧ speciesCompartmentLit = none ∧
-    defaultCompartmentId = "compartment" ∧ defaultCompartmentSize = 1 ∧ defaultCompartmentFresh = true ∧
+    defaultCompartmentId = "compartment" ∧ defaultCompartmentFresh = true ∧
     compartmentClashRefused = true := by
   decide
 
